@@ -50,6 +50,7 @@ class Interp:
             scenario.get('run_seed', 0) & 0xffff, self.trace)
         self.saved_default = d.default_loop
         self.clock_gen = 0
+        self.pp_left = self.pp_done = 0
         self.loop = d.SimpleLoop(self.make_clock(0))
         self.own_loop = bool(self.cfg.get('own_loop'))
         if self.own_loop:
@@ -218,6 +219,20 @@ class Interp:
             world.add_processor(cp, spec.get('coro_prio', 1))
             for k, ys in enumerate(spec['coros']):
                 cp.start(self.coro_body(inst, k, ys))
+        if self.cfg.get('pingpong'):
+            # a listener that bounces the loop on to the next handle for as
+            # long as the program's counter lasts (see sop_pingpong)
+            nh = len(self.handles)
+
+            @d.event_handler('on_switch_in')
+            class Bouncer:
+                def on_switch_in(self, frm, to):
+                    if it.pp_left > 0:
+                        it.pp_left -= 1
+                        it.pp_done += 1
+                        d.switch(it.handles[(h + 1) % nh],
+                                 from_world=it.loop.current_world)
+            world.create_entity(Bouncer())
         for k, prio in enumerate(spec.get('procs', [])):
             def make(k):
                 class P(d.Processor):
@@ -497,7 +512,31 @@ class Interp:
             e = self.shared_exc.setdefault(
                 key, d.SwitchWorld(self.handles[T], cc, cn))
             raise e.with_traceback(None)
+        if (cc or cn) and (self.frame + T) % 3 == 0:
+            # the request is amended after it was built (r = SwitchWorld(h);
+            # r.clear_next = True; raise r): what counts is what it says
+            # when it reaches the loop
+            e = d.SwitchWorld(self.handles[T])
+            e.clear_current, e.clear_next = cc, cn
+            self.probes['switch_request_amended_after_construction'] += 1
+            raise e
         raise d.SwitchWorld(self.handles[T], cc, cn)
+
+    def sop_pingpong(self, op, inst):
+        """A long finite chain of switches between two iterations: every
+        world that is entered asks, from its on_switch_in, for the next one,
+        n times (terminal for the model: afterwards the loop simply goes
+        on)."""
+        if not self.cfg.get('pingpong') or self.terminal:
+            return
+        self.terminal = True
+        self.pre_request = (self.loop.current_world,
+                            self.loop.current_world_handle)
+        self.pp_left = op[1]
+        self.probes['chain_of_switches>=990'] += op[1] >= 990
+        self.faults['switch_chain'] += 1
+        self.desper.switch(self.handles[op[2]],
+                           from_world=self.loop.current_world)
 
     def sop_loop_switch(self, op, inst):
         """A plain call of loop.switch(handle) from running code (no
@@ -1054,6 +1093,7 @@ def gen_config(prop, rng):
     return {'policy': rng.choice(kernel.POLICIES), 'worlds': worlds,
             'own_loop': rng.random() < .2,
             'falsy_worlds': rng.random() < .1,
+            'pingpong': prop == 'C14' and rng.random() < .03,
             'shared_switch': ([rng.randrange(nw), rng.random() < .5,
                                rng.random() < .7]
                               if rng.random() < .1 else None),
@@ -1089,6 +1129,9 @@ def gen_script(prop, rng, cfg, key, state):
         return [['loop_switch', rng.randrange(nw)]]
     if prop == 'C14' and not special and rng.random() < .04:
         ops.append(['swap_clock'])
+    if cfg.get('pingpong') and not special and rng.random() < .3:
+        return [['pingpong', rng.choice([40, 300, 995, 1100, 1500]),
+                 rng.randrange(nw)]]
     if rng.random() < .35:
         state['token'] += 1
         ops.append(['probe', rng.randrange(nw), state['token']])
